@@ -30,7 +30,12 @@ def main():
         try:
             o = mod.observe(it["spec"], it["inputs"])
             if it.get("ob") is None and "predicted" in it:
-                out.append({"outputs": o})
+                # translator validation: report the real outputs, and let the independent concrete oracle judge them as well
+                try:
+                    v, msg = mod.judge(it["spec"], it["inputs"], o, "validation")
+                except Exception:   # noqa
+                    v, msg = False, ""
+                out.append({"outputs": o, "violated": bool(v), "msg": msg})
                 continue
             v, msg = mod.judge(it["spec"], it["inputs"], o, it.get("ob"))
             out.append({"outputs": o, "violated": bool(v), "msg": msg})
